@@ -233,7 +233,10 @@ LinesG ==
     <<"{", "x", "c", ";", "}">>, <<"{", "x", ";", "c">>, <<"if", "x", "c", ";", "then", "x", ";", "fi">>,
     <<"x", LC, "c", "a">>, <<"x", "c", LC, "a">>, <<"c", LC, "a", LC, "b">>, <<"x", "c", "c">>, <<"x", "b", "c", "a">> }
 
-LinesT == Cat3(Pres, Cores, Sufs)
+\* (closing a group / an if only where it can make the line well formed)
+LinesT == Cat3(Pres, Cores, {<<>>, <<"|", "c">>})
+          \cup Cat3({<<>>, <<"{">>}, Cores, SufGroup)
+          \cup Cat3({<<>>, <<"if">>}, Cores, SufIf)
 
 \* lines that use a fourth name
 Lines4 ==
